@@ -566,14 +566,26 @@ class State(MutableMapping):
                 assert (
                     old_v.shape == cur_v.shape
                 ), f"Bad shapes for {k}: {old_v.shape} != {cur_v.shape}"
+                mask = to_revert
                 if right_broadcasting:
                     add_ndim = max(old_v.ndim - to_revert.ndim, 0)
-                    self._values[k] = old_v * unsqueeze_right(
-                        to_revert, ndim=add_ndim
-                    ) + cur_v * unsqueeze_right(to_keep, ndim=add_ndim)
-                else:
-                    self._values[k] = old_v * to_revert + cur_v * to_keep
+                    mask = unsqueeze_right(to_revert, ndim=add_ndim)
+                # select (instead of blending with 0/1 weights) so that a non-finite
+                # value on the discarded side can not leak as `inf * 0 = nan`
+                self._values[k] = self._select(mask, old_v, cur_v)
         self._last_fork = None
+
+    @staticmethod
+    def _select(
+        mask: torch.Tensor, old_v: VariableValue, cur_v: VariableValue
+    ) -> VariableValue:
+        """Element-wise choice of `old_v` where `mask` is True and of `cur_v` elsewhere."""
+        if isinstance(old_v, WeightedTensor) or isinstance(cur_v, WeightedTensor):
+            old_value, old_weight = WeightedTensor.get_filled_value_and_weight(old_v)
+            cur_value, cur_weight = WeightedTensor.get_filled_value_and_weight(cur_v)
+            weight = old_weight if old_weight is not None else cur_weight
+            return WeightedTensor(torch.where(mask, old_value, cur_value), weight)
+        return torch.where(mask, old_v, cur_v)
 
     def to_device(self, device: torch.device) -> None:
         """
